@@ -85,6 +85,12 @@ def edit_power(path, kind, rng):
         parts = rows[i].split(',')
         parts[5] = 'abc'
         rows[i] = ','.join(parts)
+    elif kind in ('nan', 'inf', 'neginf'):
+        i = rng.randrange(len(rows))
+        parts = rows[i].split(',')
+        parts[5 + rng.randrange(len(parts) - 5)] = {'nan': 'nan', 'inf': 'inf',
+                                                    'neginf': '-inf'}[kind]
+        rows[i] = ','.join(parts)
     elif kind == 'few-columns':
         rows = [','.join(r.split(',')[:4]) for r in rows]
     elif kind == 'missing-item':
@@ -383,7 +389,7 @@ def targeted(rng, base, tier):
                          for p in c['power'].values()],
         ['PowerProfile'], badpow)
     for ed in ('empty', 'ragged', 'text', 'few-columns', 'missing-item',
-               'zgap'):
+               'zgap', 'nan', 'inf', 'neginf'):
         add('power-' + ed, lambda c, t, r: None, ['PowerProfile'], badpow,
             pedit=ed)
     if len(base(random.Random(1))[0]['types']) > 1:
